@@ -1,7 +1,8 @@
 #!/bin/bash
-# tools/eval_seed.sh /tmp/seeded-out/C03-a [extra check args]
-# Apply a seeded change in a scratch worktree, run its demo with and without it, run the property's check against it.
-d="$1"; shift
+# tools/eval_seed.sh /tmp/seeded-out/C03-a [tier]
+# Apply a seeded change in a scratch worktree (outside /repo and /verif), run its demo with and
+# without it, run the property's check against it; writes <dir>/eval_result.json.
+d="$1"; tier=${2:-quick}
 name=$(basename "$d"); pid=${name%%-*}
 wt=/tmp/evalwt-$name
 git -C /repo worktree remove --force $wt >/dev/null 2>&1
@@ -9,12 +10,25 @@ git -C /repo worktree add --detach $wt HEAD >/dev/null 2>&1 || { echo "worktree 
 cd $wt
 demo=$(ls $d/demo_test.py $d/demo*.py 2>/dev/null | head -1)
 run_demo() { (cd $wt && PYTHONPATH=$wt/src timeout 600 /venv/bin/python -m pytest -q -p no:cacheprovider "$demo" 2>&1 | tail -1); }
-echo "[$name] demo clean:   $(run_demo)"
+clean=$(run_demo)
+echo "[$name] demo clean:   $clean"
 if ! git apply "$d/patch.diff" 2>/tmp/apply-$name.err; then
   if ! git apply --3way "$d/patch.diff" 2>>/tmp/apply-$name.err; then echo "[$name] PATCH DOES NOT APPLY: $(head -2 /tmp/apply-$name.err | tr '\n' ' ')"; git -C /repo worktree remove --force $wt; exit 3; fi
 fi
-echo "[$name] demo patched: $(run_demo)"
+patched=$(run_demo)
+echo "[$name] demo patched: $patched"
 cd /verif
-out=$(VERIF_REPO_SRC=$wt/src VERIF_JOBS=${VERIF_JOBS:-8} timeout 1800 ./check $pid "$@" 2>&1)
+out=$(VERIF_REPO_SRC=$wt/src VERIF_JOBS=${VERIF_JOBS:-8} timeout 3600 ./check $pid --tier $tier 2>&1); rc=$?
 echo "$out" | grep -E "signature:|-> " | head -6 | sed "s/^/[$name] /"
 git -C /repo worktree remove --force $wt >/dev/null 2>&1
+CLEAN="$clean" PATCHED="$patched" RC=$rc OUT="$out" TIER=$tier /venv/bin/python - "$d" <<'P'
+import json, os, sys, subprocess
+d = sys.argv[1]; out = os.environ["OUT"]
+sigs = [l.split("signature:", 1)[1].strip() for l in out.splitlines() if "signature:" in l]
+json.dump({"demo_on_clean_tree": os.environ["CLEAN"], "demo_with_change": os.environ["PATCHED"],
+           "check_cmd": "VERIF_REPO_SRC=<scratch worktree>/src ./check %s --tier %s" % (os.path.basename(d).split("-")[0], os.environ["TIER"]),
+           "check_exit": int(os.environ["RC"]), "check_signatures": sigs,
+           "check_summary": [l for l in out.splitlines() if " -> " in l][-1:],
+           "repo_head": subprocess.run(["git", "-C", "/repo", "rev-parse", "--short", "HEAD"], capture_output=True, text=True).stdout.strip()},
+          open(os.path.join(d, "eval_result.json"), "w"), indent=1)
+P
